@@ -206,12 +206,12 @@ def distance_measure(
 
     nans = x.isnull()  # ckecking for nans
 
-    # computing spearman's r
-    d_corr = correlation(x[~nans], y[~nans])
+    # absolute linear correlation (1 - correlation distance): the greater, the more associated
+    d_corr = abs(1 - correlation(x[~nans], y[~nans]))
 
     # updating association
     active, measurement = False, {"distance_measure": nan}
-    if d_corr:
+    if d_corr == d_corr:  # checking for nan
         measurement = {"distance_measure": d_corr}
 
         # Excluding features not associated enough
